@@ -348,8 +348,20 @@ def eval_registry(case):
 _CACHE = {}
 
 
+_CANON = {}
+
+
+def _canon(desc):
+    """canon(desc), memoised on object identity for the descriptors owned by spellings() (they live as long as the
+    process, so ids are not reused)."""
+    hit = _CANON.get(id(desc))
+    if hit is not None and hit[0] is desc:
+        return hit[1]
+    return canon(desc)
+
+
 def _resolved(engine, desc):
-    k = engine + canon(desc)
+    k = engine + _canon(desc)
     if k not in _CACHE:
         try:
             obj = S.build(desc)
@@ -610,6 +622,8 @@ def spellings(engine):
     for desc, must in documented_extras(engine):
         add(desc, "documented", must, is_desc=True)
     out = [items[k] for k in sorted(items)]
+    for k in items:
+        _CANON[id(items[k]["key"])] = (items[k]["key"], k)
     _SPELLINGS[engine] = out
     return out
 
@@ -836,13 +850,6 @@ def strat_params():
     return case()
 
 
-# spellings of a parameter family that pandera documents / registers as accepted (index into _forms)
-def _must(engine, fam, idx, desc):
-    if "s" in desc:
-        return False  # string forms are scored through the print round trip only
-    return True
-
-
 def eval_params(case):
     ev = Eval()
     engine, fam = case["engine"], case["fam"]
@@ -851,13 +858,11 @@ def eval_params(case):
     da, db = fa[case["f1"] % len(fa)], fb[case["f2"] % len(fb)]
     ev.labels += [f"fam={engine}/{fam}", "params-same" if case["p1"] == case["p2"] else "params-differ"]
     ev.nontrivial = True
-    ra = eval_key(ev, engine, da, must=_must(engine, fam, 0, da), src="params")
-    # abstract parametrised instance of an accepted abstract class must be accepted
-    obj = S.build(da)
-    if S.keyform(obj) == "abstract-instance" and ra is None and not ev.discs:
-        rc = resolve(engine, type(obj))
-        if rc["st"] == "ok":
-            pass  # already reported through must=True
+    # string forms are scored through the print round trip only; every other form is a constructor / native instance
+    # that the engine documents as accepted
+    if "pandera.engines.pandas_engine:Arrow" in canon(da) + canon(db):
+        ev.labels.append("uses-duplicate-arrow-class")  # known-bad feature (duplicate classes); most cases avoid it
+    eval_key(ev, engine, da, must="s" not in da, src="params")
     _CACHE.clear()
     eval_pair_into(ev, engine, da, db)
     if case["p1"] == case["p2"]:
@@ -1052,11 +1057,11 @@ FAMILIES = [
                                          "src=equivalents", "tag-scored", "primitive"]),
     Family("pairs", eval_pairs, enumerate=enum_pairs, shards_quick=8, shards_thorough=12, exhaustive=True, setup=setup,
            required_labels=["pair-diff-class", "pair-equal", "check-true", "check-physical-scored", "pair-same-native-tag"]),
-    Family("params", eval_params, strategy=strat_params, n_quick=700, n_thorough=6000, shards_quick=3, shards_thorough=8,
+    Family("params", eval_params, strategy=strat_params, n_quick=700, n_thorough=30000, shards_quick=3, shards_thorough=12,
            setup=setup, required_labels=["params-same", "params-differ", "fam=pandas/dttz", "fam=polars/datetime",
                                          "fam=pyspark/decimal"]),
-    Family("strings", eval_strings, strategy=strat_strings, n_quick=1500, n_thorough=15000, shards_quick=2,
-           shards_thorough=8, setup=setup, required_labels=["string-resolves", "string-rejected"]),
+    Family("strings", eval_strings, strategy=strat_strings, n_quick=1500, n_thorough=60000, shards_quick=2,
+           shards_thorough=12, setup=setup, required_labels=["string-resolves", "string-rejected"]),
     Family("fresh", eval_fresh, enumerate=enum_fresh, shards_quick=1, shards_thorough=1, exhaustive=True),
 ]
 
@@ -1259,11 +1264,13 @@ def _(family, case, disc):
     d = _det(disc)
     cl = _classes(disc)
     if disc.kind == "print-roundtrip-differs:pandas":
-        return d.get("printed") == "string[pyarrow]" and cl == ["pandas_engine.STRING", "pyarrow_engine.ArrowString"]
+        return d.get("printed") == "string[pyarrow]" and cl[:1] == ["pandas_engine.STRING"] and cl[1:] in (
+            ["pyarrow_engine.ArrowString"], ["pandas_engine.ArrowString"])
     if disc.kind == "wrong-target:pandas:str":
-        return d.get("key") == {"s": "string[pyarrow]"} and d.get("fields") == ["variant"] and cl == ["pyarrow_engine.ArrowString"]
+        return d.get("key") == {"s": "string[pyarrow]"} and d.get("fields") == ["variant"] and cl in (
+            ["pyarrow_engine.ArrowString"], ["pandas_engine.ArrowString"])
     if disc.kind in ("equivalent-spellings-differ:pandas", "same-parameters-resolve-differently:pandas:string"):
-        return sorted(cl) == ["pandas_engine.STRING", "pyarrow_engine.ArrowString"] and \
+        return sorted(c.split(".")[-1] for c in cl) == ["ArrowString", "STRING"] and \
             {"s": "string[pyarrow]"} in (d.get("a"), d.get("b"))
     return False
 
